@@ -603,3 +603,22 @@ Proof.
   replace (2 / (3 + 1) / (1 / 2) / (3 + (3 - 1) / (3 + 1) * 2)) with (/ 2 * / 2) by field.
   rewrite sqrt_square by lra. field.
 Qed.
+
+(* ---- with the pattern chosen by the driver's own if/elif chain the fan-side hypotheses are theorems (C17) ---- *)
+From EP Require Import proofs.C17_riemann.
+
+Lemma igeos_conservation_classified_proof :
+  forall (pl rl ul gl pr rr ur gr px xd0 t xa xb : R) (c : comp),
+    0 < pl -> 0 < rl -> 1 < gl -> 0 < pr -> 0 < rr -> 1 < gr -> 0 < px -> 0 < t ->
+    ~ (pr = pl /\ ur = ul /\ rr = rl) ->
+    let pat := ig_classify pl rl ul gl pr rr ur gr in
+    pat <> RCVCR ->
+    ig_call pl rl ul gl pr rr ur gr pat px = 0 ->
+    List.Forall (fun Xw => xa <= Xw <= xb) (ig_Xregs pl rl ul gl pr rr ur gr pat px xd0 t) ->
+    is_RInt (sol_dens pl rl ul gl pr rr ur gr px xd0 t c pat) xa xb
+            (balance pl rl ul gl pr rr ur gr xd0 t xa xb c).
+Proof.
+  intros pl rl ul gl pr rr ur gr px xd0 t xa xb c Hpl Hrl Hgl Hpr Hrr Hgr Hpx Ht Hd pat Hpat Hcall HX.
+  destruct (classification_admissible pl rl ul gl pr rr ur gr px Hpl Hrl Hgl Hpr Hrr Hgr Hpx Hpat Hcall) as (_ & HLf & _ & HRf).
+  apply igeos_conservation_proof; try assumption; intros H; first [ apply HLf; exact H | apply HRf; exact H ].
+Qed.
